@@ -63,6 +63,13 @@ class C07(InvProp):
                    'pressure_exponent': rng.pick([0.4, 0.8, 1.0])}[attr]
             tch = int(rng.irange(1, max(1, o['duration'] // o['hyd_step'] - 1)) * o['hyd_step'] + rng.pick([0, 0, 37]))
             scn['pdd_changes'] = [{'t': tch, 'node': jn['id'], 'attr': attr, 'value': val}]
+            feed = [l_ for l_ in scn['links'] if l_['type'] == 'pipe' and not l_.get('cv') and jn['id'] in (l_['a'], l_['b'])]
+            if len(feed) == 1 and rng.chance(0.4) and tch - o['hyd_step'] > 0:
+                # the junction is cut off (its only pipe closed) while the control changes its parameter, and reconnected afterwards
+                for nm_, t_, v_ in (('cut', tch - o['hyd_step'], 'CLOSED'), ('rejoin', tch + o['hyd_step'], 'OPEN')):
+                    if 0 < t_ <= o['duration']:
+                        scn['controls'].append({'name': nm_ + '1', 'kind': 'simple', 'cond': {'t': 'simtime', 'rel': '=', 'thr': int(t_ // o['hyd_step'] * o['hyd_step'])},
+                                                'then': [{'link': feed[0]['id'], 'attr': 'status', 'value': v_}], 'priority': 3})
             scn.pop('edits', None)      # the control leaves the junction changed: a rerun on the same model would start from the changed value
         return scn
 
